@@ -658,8 +658,11 @@ func validateV2Siacoins(ms *MidState, txn types.V2Transaction) error {
 	}
 
 	var inputSum, outputSum types.Currency
+	var overflow bool
 	for _, sci := range txn.SiacoinInputs {
-		inputSum = inputSum.Add(sci.Parent.SiacoinOutput.Value)
+		if inputSum, overflow = inputSum.AddWithOverflow(sci.Parent.SiacoinOutput.Value); overflow {
+			return errors.New("siacoin inputs overflow")
+		}
 	}
 	for i, out := range txn.SiacoinOutputs {
 		if out.Value.IsZero() {
@@ -674,8 +677,11 @@ func validateV2Siacoins(ms *MidState, txn types.V2Transaction) error {
 		if r, ok := fcr.Resolution.(*types.V2FileContractRenewal); ok {
 			// a renewal creates a new contract, optionally "rolling over" funds
 			// from the old contract
-			inputSum = inputSum.Add(r.RenterRollover)
-			inputSum = inputSum.Add(r.HostRollover)
+			if inputSum, overflow = inputSum.AddWithOverflow(r.RenterRollover); overflow {
+				return errors.New("siacoin inputs overflow")
+			} else if inputSum, overflow = inputSum.AddWithOverflow(r.HostRollover); overflow {
+				return errors.New("siacoin inputs overflow")
+			}
 
 			rev := r.NewContract
 			outputSum = outputSum.Add(rev.RenterOutput.Value).Add(rev.HostOutput.Value).Add(ms.base.V2FileContractTax(rev))
